@@ -48,6 +48,71 @@ theorem outside_atom_same (m : C04.Mol) (R : Residue) (h : WF m R) (a : C04.Atom
   have : a0 = a := inj_of_nodup_map (out_keys_nodup m R h) h0 ha hka
   rw [← this]; exact ha0
 
+/-! ### `dict.fromkeys` -/
+
+theorem dedupAux_idem (seen l : List String) : dedupAux seen (dedupAux seen l) = dedupAux seen l := by
+  induction l generalizing seen with
+  | nil => rfl
+  | cons x xs ih =>
+    by_cases h : seen.contains x = true
+    · simp only [dedupAux, h, if_true]; exact ih seen
+    · simp only [dedupAux, h, if_false, Bool.false_eq_true]
+      rw [ih (x :: seen)]
+
+theorem mem_dedupAux (seen l : List String) (x : String) : x ∈ dedupAux seen l ↔ x ∈ l ∧ x ∉ seen := by
+  induction l generalizing seen with
+  | nil => simp [dedupAux]
+  | cons y ys ih =>
+    by_cases h : seen.contains y = true
+    · have hy : y ∈ seen := by simpa using h
+      simp only [dedupAux, h, if_true, ih, List.mem_cons]
+      constructor
+      · rintro ⟨h1, h2⟩; exact ⟨Or.inr h1, h2⟩
+      · rintro ⟨h1 | h1, h2⟩
+        · subst h1; exact absurd hy h2
+        · exact ⟨h1, h2⟩
+    · have hy : y ∉ seen := by simpa using h
+      simp only [dedupAux, h, if_false, Bool.false_eq_true, List.mem_cons, ih, not_or]
+      constructor
+      · rintro (h1 | ⟨h1, h2, h3⟩)
+        · subst h1; exact ⟨Or.inl rfl, hy⟩
+        · exact ⟨Or.inr h1, h3⟩
+      · rintro ⟨h1 | h1, h2⟩
+        · exact Or.inl h1
+        · by_cases e : x = y
+          · exact Or.inl e
+          · exact Or.inr ⟨h1, e, h2⟩
+
+theorem nodup_dedupAux (seen l : List String) : (dedupAux seen l).Nodup := by
+  induction l generalizing seen with
+  | nil => simp [dedupAux]
+  | cons y ys ih =>
+    by_cases h : seen.contains y = true
+    · simp only [dedupAux, h, if_true]; exact ih seen
+    · simp only [dedupAux, h, if_false, Bool.false_eq_true, List.nodup_cons]
+      refine ⟨?_, ih (y :: seen)⟩
+      intro hc
+      have := ((mem_dedupAux (y :: seen) ys y).1 hc).2
+      exact this (by simp)
+
+theorem dedupAux_of_nodup (seen l : List String) (hn : l.Nodup) (hd : ∀ x ∈ l, x ∉ seen) : dedupAux seen l = l := by
+  induction l generalizing seen with
+  | nil => rfl
+  | cons y ys ih =>
+    have hy : seen.contains y = false := by simpa using hd y (by simp)
+    simp only [dedupAux, hy, Bool.false_eq_true, if_false]
+    rw [ih (y :: seen) (List.nodup_cons.1 hn).2]
+    intro x hx
+    simp only [List.mem_cons, not_or]
+    exact ⟨fun e => (List.nodup_cons.1 hn).1 (e ▸ hx), hd x (List.mem_cons_of_mem _ hx)⟩
+
+/-- what of a reference does not depend on the attribute strings written at the end -/
+def skeleton (b : Block) : List (Int × String × Int × Option Bool) × List (Int × Int) :=
+  (b.nodes.map fun a => (a.key, a.name, a.elem, a.ptm), b.edges)
+
+theorem skeleton_setAll (b : Block) (k v : String) : skeleton (setAll b k v) = skeleton b := by
+  simp [skeleton, setAll, List.map_map, Function.comp_def]
+
 /-! ### strings: a non-empty request list is truthy -/
 
 theorem pyList_cons_toList (x : String) (xs : List String) :
